@@ -24,6 +24,9 @@ def sentences_pool(rnd):
     for n in (1, 2, 3, 5, 8, 12):
         ws = [rnd.choice(words) for _ in range(n)]
         out.append(" ".join(ws).capitalize() + rnd.choice(".?!") + rnd.choice(["", "", "", "'", '"', ")", "\u201d", "\u2019"]))
+    # fixed shapes: sentences that end in a short word, start with a number, a bracket, a quote or a lower-case word
+    out += ["It all ended in late May.", "2023 was so much better than that.", "We really have to go.", "3 of them stayed behind again today.",
+            "(Really so, they said it twice.)", "\"Quoted start\" goes on for a while here.", "iPhones are sold there as well, they say."]
     return out
 
 
@@ -165,7 +168,7 @@ def bounded(tier, seed):
     evals += check_heuristic(tier, viol)
     return {"evaluations": evals, "distinct_nontrivial": len(distinct), "violations": viol, "samples": samples,
             "rule": "(also: heuristic_end_of_sentence == an independent implementation of the documented rule on every word of "
-                    "length <= 4/5 over a 13-symbol alphabet) seeded paragraphs of 2-4 sentences drawn from 6 sentence lengths (1..12 words) x widths {30,60,88} x "
+                    "length <= 4/5 over a 13-symbol alphabet) seeded paragraphs of 2-4 sentences drawn from 6 sentence lengths (1..12 words) and 7 fixed shapes (short last word, leading number / bracket / quote / lower case) x widths {30,60,88} x "
                     "{no indent, list indent}: break placement on the real line_wrap_by_sentence, and every single-sentence "
                     "replacement by three other sentences: line-level locality (prefix before the previous sentence's last line, "
                     "suffix after the first sentence ending on a line >= min length in both runs); distinct = distinct "
